@@ -86,6 +86,14 @@ def run(ctx):
                     if is_lit(X, "dict") and X[3] is not None:
                         maps.add(X)
                         fresh.add(X)
+        # M.update(D) with D a dict display of this call that is filled item by item beforehand:
+        # D's insertions are M's (checked below: none of them comes after the merge)
+        merged = {}
+        for i, ev in enumerate(evs):
+            if ev[0] == "mutcall" and ev[3] == "update" and ev[2] in maps and len(ev[4]) == 1 and is_lit(ev[4][0], "dict") and ev[4][0][3] is not None and not ev[4][0][2] and ev[4][0] not in maps:
+                maps.add(ev[4][0])
+                fresh.add(ev[4][0])
+                merged[ev[4][0]] = i
         # insertions with their loop context
         inserts = []  # (event, section name or None, element term, body-path events before it, index among top-level events or None)
 
@@ -132,6 +140,9 @@ def run(ctx):
         for ev, sect, el, before, top_i, lctx in inserts:
             if ev[2][1] == sigs and not any(r < top_i for r in reset_idx):
                 agg["reset-first"] = False
+            if ev[2][1] in merged and top_i >= merged[ev[2][1]]:
+                agg["one-store-per-artifact"] = False
+                notes["one-store-per-artifact"] = "an entry is put into a side dictionary after that dictionary was merged into the signatures mapping"
         if not any(m in fresh for m in maps) and not reset_idx:
             agg["reset-first"] = False
         # loops over sections: one store per completing body path, stored under the element
@@ -228,6 +239,19 @@ def run(ctx):
 
     # ---- R4 write set + write back (shared with C08)
     _inplace_signers(ctx.sub("R4"), "C08-R3")
+
+    # ---- R6: signing completes for every document whatever the console: text the signer (or
+    # anything it calls in the package) prints is ASCII-safe - a progress line with an artifact
+    # name in it dies with UnicodeEncodeError before the file is written
+    from sa.callgraph import CallGraph
+
+    from .c02 import _print_sinks
+
+    cone = sorted(q for q in CallGraph(eng.prog).cone(["signing.sign_all_in_repodata"]) if q in eng.prog.funcs and eng.prog.funcs[q].parent is None and eng.prog.funcs[q].cls is None)
+    ctx.count("R6.functions_in_cone", len(cone))
+    ctx.floor("R6.functions_in_cone", 5)
+    _print_sinks(ctx, cone, "R6")
+    ctx.ob("R6", "console-independent", site.loc(), "of the %d functions the signer reaches, %s (%d print sinks)" % (len(cone), "all print only ASCII-safe text" if not ctx.failed("R6") else "some print text that stdout may be unable to encode", ctx.counts.get("R6.print_sinks", 0)), not ctx.failed("R6"))
 
     # ---- "a client verifies each entry through a pkg_mgr delegation": the delegation check accepts
     # properly signed content of any shape and nothing else (C05's rule set, re-evaluated here)
